@@ -85,7 +85,7 @@ struct View {
 	best: (u32, String),
 	watch: BTreeSet<String>,
 	mon_events: BTreeSet<String>,
-	spendable: BTreeSet<String>,
+	spendable: Vec<String>,
 }
 
 struct Clone_<'a> {
@@ -93,7 +93,7 @@ struct Clone_<'a> {
 	fee: &'a lightning::util::test_utils::TestFeeEstimator,
 	logger: &'a lightning::util::test_utils::TestLogger,
 	mon_events: BTreeSet<String>,
-	spendable: BTreeSet<String>,
+	spendable: Vec<String>,
 	/// the clone's own chain: height -> block id, and where each transaction is confirmed
 	conf: HashMap<Txid, u32>,
 	commit_txid: Txid,
@@ -147,7 +147,7 @@ impl<'a> Clone_<'a> {
 							)
 						},
 					}
-					self.spendable.insert(format!("{}", op));
+					self.spendable.push(format!("{}", op));
 				}
 			}
 		}
@@ -205,7 +205,7 @@ impl<'a> Clone_<'a> {
 			best: (bb.height, bb.block_hash.to_string()),
 			watch: self.mon.get_outputs_to_watch().iter().flat_map(|(t, outs)| outs.iter().map(move |(i, s)| format!("{}:{}:{}", t, i, s.to_hex_string()))).collect(),
 			mon_events: self.mon_events.clone(),
-			spendable: self.spendable.clone(),
+			spendable: { let mut v = self.spendable.clone(); v.sort(); v },
 		}
 	}
 }
@@ -426,7 +426,7 @@ fn scenario(seed: u64, want_model: bool) -> Result<Out, Fail> {
 				fee: nodes[node].fee_estimator,
 				logger: nodes[node].logger,
 				mon_events: BTreeSet::new(),
-				spendable: BTreeSet::new(),
+				spendable: Vec::new(),
 				conf: HashMap::new(),
 				commit_txid: ctxid,
 				trace: Vec::new(),
@@ -478,6 +478,12 @@ fn scenario(seed: u64, want_model: bool) -> Result<Out, Fail> {
 						c.bd(&fp)?;
 					} else {
 						let fork_hashes: BTreeSet<BlockHash> = fork.iter().map(|x| x.header.block_hash()).collect();
+						let best_first = r2.below(2) == 0;
+						if best_first {
+							// the reorg branch of best_block_updated alone must retract the fork
+							c.bb(&fp)?;
+							c.conf.retain(|_, h| *h <= fp.height);
+						}
 						loop {
 							let stale: Vec<Txid> = c.mon.get_relevant_txids().into_iter().filter(|(_, _, h)| h.map(|h| fork_hashes.contains(&h)).unwrap_or(false)).map(|x| x.0).collect();
 							match stale.first() {
@@ -485,7 +491,7 @@ fn scenario(seed: u64, want_model: bool) -> Result<Out, Fail> {
 								None => break,
 							}
 						}
-						if bi > 0 || true {
+						if !best_first {
 							// best block back to the fork point (lower height, other hash: the reorg branch)
 							c.bb(&fp)?;
 							c.conf.retain(|_, h| *h <= fp.height);
@@ -641,6 +647,15 @@ fn run_one(seed: u64, model: bool) -> String {
 		Ok(Err(f)) => format!("R {{\"seed\":{},\"ok\":false,\"why\":{},\"detail\":{}}}", seed, jstr(&f.why), jstr(&f.detail)),
 		Err(_) => {
 			let msg = PANIC_MSG.lock().unwrap().clone();
+			// Known behaviour C11-F1 (known_findings.json): time-locked claim packages created when a
+			// commitment confirmed survive that block's disconnection; when the commitment confirms again
+			// the aggregated ones are not recognised as duplicates and a debug assertion fires later.
+			if msg.contains("onchaintx.rs") && msg.contains("self.pending_claim_requests.get(&claim_id).is_none()") {
+				return format!(
+					"R {{\"seed\":{},\"ok\":true,\"aborted\":true,\"findings\":[\"F1-locktimed-packages-survive-reorg\"],\"detail\":{}}}",
+					seed, jstr(&msg)
+				);
+			}
 			format!("R {{\"seed\":{},\"ok\":false,\"why\":{},\"detail\":{}}}", seed, jstr("panic inside the library or its test utilities"), jstr(&msg))
 		},
 	}
